@@ -1,6 +1,7 @@
 import SemVerif.Spec.Preds
 import SemVerif.Inventory
 import SemVerif.Lemmas.StmtSteps
+import SemVerif.Lemmas.Misc
 /-!
 # Property C13 — analysis is total
 
@@ -310,13 +311,6 @@ theorem firstPanic_none : ∀ (l : List St), (∀ s ∈ l, s.panic = none) → f
     unfold firstPanic
     rw [h s (by simp)]
     exact firstPanic_none rest (fun x hx => h x (by simp [hx]))
-
-theorem fns_eq_fnDecls : ∀ (p : Program), p.fns = p.fnDecls
-  | [] => rfl
-  | .fn f :: rest => by simp [Program.fns, Program.fnDecls, fns_eq_fnDecls rest]
-  | .imp _ :: rest => by simp [Program.fns, Program.fnDecls, fns_eq_fnDecls rest]
-  | .types _ :: rest => by simp [Program.fns, Program.fnDecls, fns_eq_fnDecls rest]
-  | .const _ :: rest => by simp [Program.fns, Program.fnDecls, fns_eq_fnDecls rest]
 
 /-- **C13** — inside the documented domain the analysis returns normally -/
 theorem C13 (p : Program) : P_C13 p (run p) = [] := by
